@@ -1,27 +1,49 @@
 import RomeaModel.Lockset
 import RomeaModel.Generated.LockTable
+import RomeaModel.Linearize
+import RomeaModel.LinObjects
+import RomeaModel.LinReport
+import RomeaProofs.Lemmas.C19Lin
+import RomeaProofs.Lemmas.C19Report
 import Mathlib.Logic.Function.Basic
 import Mathlib.Data.List.Basic
 import Mathlib.Tactic.Linarith
 
 /-!
-# C19 — lock discipline ⇒ no data race, critical sections do not interleave (partial)
+# C19 — concurrency: lock discipline ⇒ no data race; one critical section per call ⇒ linearizable (partial)
 
-What is proved here, for EVERY number of threads, every program built from method summaries and every
+Part 1 (lockset).  For EVERY number of threads, every program built from method summaries and every
 interleaving (unbounded): if the accesses of a trace are guarded (each access of a field `f` happens
 while the accessing thread holds the fixed mutex `guard f`) then any two accesses of the same field by
 different threads are separated by a `rel (guard f)` of the first thread followed by an `acq (guard f)` of
 the second — a happens-before edge, i.e. no data race — and no other thread touches a guarded field inside
-somebody's critical section (critical sections are serial).  The regenerated table of the real code is
-shown to obey the discipline (`table_disciplined`, by `decide` on the generated file), and summaries that
-pass the decidable check `scan` generate guarded traces (`scan_sound`).  On the resulting serial semantics:
-`SharedVariable` loads return a stored value, `SharedOptionalVariable` hands every stored value to at
-most one consumer in store order.
+somebody's critical section.  The regenerated table of the real code obeys the discipline (`table_disciplined`,
+by `decide` on the generated file), and summaries that pass the decidable check `scan` generate guarded traces.
 
-NOT carried (residue, see DESIGN.md C19): the C++ memory model, `std::mutex`, compiler reordering — the
-model assumes a sequentially consistent interleaving of the summaries' events and that `lock_guard`
-acquires/releases as the event language says; the translation of the source into the table is done by the
-trusted script `tools/gen_locktable.py`; the ThreadSanitizer harness cross-checks both.
+Part 2 (linearizability, `RomeaModel/Linearize.lean`).  A small-step interleaving semantics — shared store of
+WORDS (a C++ value / optional / report is several words, copied one word per step), mutex state, any number of
+threads each running a list of method calls, bodies = lists of micro-steps, ANY schedule, blocking `acq` — and the
+reduction theorem `linearizable`: if every body is ONE critical section on the guard containing all its store
+accesses, then every reachable state (also with calls in flight) is explained by the SERIAL execution of the calls
+in the order in which they took the guard.  `table_lin_shaped` (by `decide`, on every run) shows that the event
+lists regenerated from today's source have that shape for every anchored class except `RateMonitoring`;
+`table_linearizable` concludes the reduction for the bodies `ofEvents` builds from those lists, for every field
+width and EVERY data flow; `table_linearizable_to` turns any SEQUENTIAL refinement of an object into linearizability.
+Consequences, each for every data flow on today's event lists that is sequentially correct: `SharedVariable` is a
+linearizable cell and is never observed half-written; `SharedOptionalVariable` is a linearizable one-place buffer,
+every consumed value was stored, none is handed out twice, consumption order = store order, an overwritten value is
+dropped; every check-up report copy is the triple of ONE evaluation; the online statistics' getters return the values
+of a serial order (every data flow, no contract at all).
+
+NOT carried (residue, see DESIGN.md C19): the C++ memory model, `std::mutex`, compiler reordering — the model is a
+sequentially consistent interleaving of word-sized steps and `lock_guard` acquires/releases as the event language
+says; the event lists come from the trusted script `tools/gen_locktable.py`; the DATA FLOW of the bodies is not
+extracted from the source: every class theorem quantifies over it, constrained only by a SEQUENTIAL contract (what
+each method does when run alone — single-threaded behaviour, the subject of C16–C18 and of the unit tests), and the
+hand-written flows of `LinClasses.lean` / `LinReport.lean` show the contracts satisfiable on today's event lists;
+`RateMonitoring` (atomics outside the mutex) is covered by Part 1 and the probe only; real-time order of the
+linearization is by construction, not a theorem; the ThreadSanitizer harness cross-checks all of this on the real
+classes.
 -/
 namespace Romea.C19
 open Romea.Lockset
@@ -467,6 +489,307 @@ theorem optional_exactly_once (ops : List OOp) : (runOpt none ops).Sublist (stor
           exact this.cons_cons w
   simpa using this none ops
 
+/-! ## Linearizability: every schedule is explained by a serial execution (reduction theorem)
+
+`RomeaModel/Linearize.lean`: small-step interleaving semantics (shared store of words, mutex state, threads running
+sequences of method calls, bodies = lists of micro-steps, arbitrary schedule, blocking `acq`), the serial reference
+machine, `Shape`, `Linearized`, `LinearizableTo`, and `ofEvents` (bodies from the regenerated lock table).  -/
+
+section Linearizability
+open Romea.Lin
+variable {V A R : Type} [Inhabited V]
+
+/-- **Reduction theorem (atomicity of critical sections).** ANY number of threads, ANY programs (lists of calls),
+    ANY schedule of ANY length — also one that stops with calls in flight: if every body is ONE critical section on
+    the guard `g` that contains all its accesses of the shared store (`Shape`), then the state reached is explained by
+    the SERIAL execution of the calls in the order in which they acquired `g`: that order respects every thread's
+    program order; the completed calls returned, call by call, the serial return values; with the guard free the store
+    IS the serial store; with the guard held the present state is an intermediate state of the last serial call
+    (letting the holder finish alone yields the serial store and result).  (`Linearized`, in the model file, spells
+    these clauses out.)  The linearization point of a call is its `acq g`, which lies between its invocation and
+    its return, so the order also respects real-time precedence of calls (by construction of `acqOrder`; not stated
+    separately). -/
+theorem linearizable (g : Nat) (σ0 : Store V) (prog : Nat → List (Call V A R))
+    (hshape : ∀ t, ∀ c ∈ prog t, Shape g c.body) (sch : List Nat) :
+    Linearized g σ0 prog (run (init σ0 prog) sch) :=
+  linearized_of_inv g σ0 prog _ (inv_run g σ0 prog _ sch (inv_init g σ0 prog hshape))
+
+/-- **Complete runs.** If the schedule ran every thread to the end, the final store is the serial store, every
+    thread's results are exactly the serial results and every call of every program is in the serial history. -/
+theorem linearizable_complete (g : Nat) (σ0 : Store V) (prog : Nat → List (Call V A R))
+    (hshape : ∀ t, ∀ c ∈ prog t, Shape g c.body) (sch : List Nat)
+    (hfin : ∀ t, ((run (init σ0 prog) sch).thr t).cur = none ∧ ((run (init σ0 prog) sch).thr t).todo = []) :
+    (run (init σ0 prog) sch).store = (serial σ0 prog (acqOrder g (run (init σ0 prog) sch))).store ∧
+    ∀ t, ((run (init σ0 prog) sch).thr t).done = (serial σ0 prog (acqOrder g (run (init σ0 prog) sch))).res t ∧
+      histCalls (serial σ0 prog (acqOrder g (run (init σ0 prog) sch))).hist t = prog t := by
+  have hL := linearizable g σ0 prog hshape sch
+  refine ⟨hL.store_free ?_, fun t => ?_⟩
+  · cases hl : (run (init σ0 prog) sch).locks g with
+    | none => rfl
+    | some h => exact absurd hl (hL.idle h (hfin h).1).2.2
+  · obtain ⟨h1, h2, _⟩ := hL.idle t (hfin t).1
+    refine ⟨h1.symm, ?_⟩
+    have := hL.program_order t
+    rw [h2, (hfin t).2, List.append_nil] at this
+    exact this
+
+/-- classes of the table for which the reduction is NOT claimed: `RateMonitoring::getRate` is a lone atomic load
+    outside the mutex and `update` reads `windowSize_` before locking (its linearizability needs an argument about
+    the atomics that the event table does not carry) -/
+def notReduced : List String := ["RateMonitoring"]
+
+/-- **The regenerated table of the real code has the shape the reduction needs** (re-checked by the kernel on every
+    run): every in-scope method of every other anchored class is `acq g`, plain reads / writes, `rel g` and nothing
+    else — one critical section on the class's guard containing every field access, no access after the release, no
+    escaping reference, no second critical section, no atomics. -/
+theorem table_lin_shaped : ∀ c ∈ Romea.Generated.C19.table, c.name ∉ notReduced → c.linShaped = true := by decide
+
+/-- **The reduction holds of the bodies generated from today's source**, for every field width `W` (copies are word
+    by word), EVERY data flow, every program made of calls of the class's in-scope methods, every schedule. -/
+theorem table_linearizable (c : Class) (hc : c ∈ Romea.Generated.C19.table) (hex : c.name ∉ notReduced)
+    (W : Nat) (σ0 : Store V) (prog : Nat → List (Call V A R))
+    (hprog : ∀ t, ∀ cl ∈ prog t, ∃ m ∈ c.methods, ∃ fl : Flow V A R, cl.body = ofEvents W fl m.evs)
+    (sch : List Nat) : Linearized c.guard σ0 prog (run (init σ0 prog) sch) := by
+  apply linearizable
+  intro t cl hcl
+  obtain ⟨m, hm, fl, hb⟩ := hprog t cl hcl
+  rw [hb]
+  exact shape_ofEvents c.guard W fl m.evs (guard_spec c (table_lin_shaped c hc hex) m hm)
+
+/-- **Linearizability w.r.t. a sequential specification.** If every operation's body has the shape and, run ALONE,
+    refines the operation of a sequential object `o` (abstraction function `abs`), then every schedule is
+    linearizable to `o` in the sense of Herlihy–Wing (`LinearizableTo`). -/
+theorem linearizable_to_object {S Op : Type} (g : Nat) (o : SeqObj S Op R) (abs : Store V → S)
+    (impl : Op → Call V Op R) (himpl : ∀ op, (impl op).arg = op) (hshape : ∀ op, Shape g (impl op).body)
+    (href : ∀ op σ, abs (runCall σ (impl op)).1 = (o.step (abs σ) op).1 ∧ (runCall σ (impl op)).2 = (o.step (abs σ) op).2)
+    (σ0 : Store V) (oprog : Nat → List Op) (sch : List Nat) :
+    LinearizableTo o (abs σ0) oprog (run (init σ0 (fun t => (oprog t).map impl)) sch) := by
+  apply linearizableTo_of_refines g o abs impl himpl hshape href
+  apply inv_run
+  apply inv_init
+  intro t c hc
+  simp only [List.mem_map] at hc
+  obtain ⟨op, _, rfl⟩ := hc
+  exact hshape op
+
+/-- **The same for a class of the regenerated table**: operations `Op` mapped to in-scope methods of the class by
+    name, bodies built from today's event lists (`Class.call`), ANY field width, ANY data flow `fl` that is
+    SEQUENTIALLY correct — every call run alone refines the operation of the object `o` — then every schedule of any
+    number of threads is linearizable to `o`.  (The hypothesis is about single-threaded runs only.) -/
+theorem table_linearizable_to {S Op : Type} (c : Class) (hc : c ∈ Romea.Generated.C19.table) (hex : c.name ∉ notReduced)
+    (W : Nat) (fl : Flow V Op R) (meth : Op → String)
+    (hmeth : ∀ op, (c.methods.any fun m => m.name == meth op) = true)
+    (o : SeqObj S Op R) (abs : Store V → S)
+    (hseq : ∀ op σ, abs (runCall σ (c.call W fl meth op)).1 = (o.step (abs σ) op).1 ∧
+        (runCall σ (c.call W fl meth op)).2 = (o.step (abs σ) op).2)
+    (σ0 : Store V) (oprog : Nat → List Op) (sch : List Nat) :
+    LinearizableTo o (abs σ0) oprog (run (init σ0 (fun t => (oprog t).map (c.call W fl meth))) sch) := by
+  apply linearizable_to_object c.guard o abs (c.call W fl meth) (fun _ => rfl) _ hseq
+  intro op
+  obtain ⟨m, hm, he⟩ := evsOf_mem c (meth op) (hmeth op)
+  simp only [Class.call, he]
+  exact shape_ofEvents c.guard W fl m.evs (guard_spec c (table_lin_shaped c hc hex) m hm)
+
+/-- **No intermediate state is ever observed.** If a predicate `I` on stores holds initially and is re-established by
+    every call when run alone (it may be broken INSIDE a call), then in every schedule the store satisfies `I`
+    whenever nobody is in a critical section, and every value returned by the `k`-th completed call of a thread is the
+    value its `k`-th call computes when run alone from a store satisfying `I`. -/
+theorem observed_in_consistent_state (g : Nat) (σ0 : Store V) (prog : Nat → List (Call V A R))
+    (hshape : ∀ t, ∀ c ∈ prog t, Shape g c.body) (I : Store V → Prop) (hI0 : I σ0)
+    (hpres : ∀ t, ∀ c ∈ prog t, ∀ σ, I σ → I (runCall σ c).1) (sch : List Nat) :
+    ((run (init σ0 prog) sch).locks g = none → I (run (init σ0 prog) sch).store) ∧
+    ∀ (t k : Nat) (r : Option R), ((run (init σ0 prog) sch).thr t).done[k]? = some r →
+      ∃ c σ, (prog t)[k]? = some c ∧ I σ ∧ r = (runCall σ c).2 := by
+  have hL := linearizable g σ0 prog hshape sch
+  obtain ⟨hIL, H, hH, hall⟩ := serFold_inv I (fun c => ∃ t, c ∈ prog t)
+    (by rintro c ⟨t, hc⟩ σ hσ; exact hpres t c hc σ hσ)
+    (acqOrder g (run (init σ0 prog) sch)) (serInit σ0 prog) (fun t c hc => ⟨t, hc⟩) hI0
+  refine ⟨fun hf => by rw [hL.store_free hf]; exact hIL, fun t k r hk => ?_⟩
+  obtain ⟨c, hc, hmem⟩ := result_of_call g σ0 prog _ hL t k r hk
+  have hmem' : (t, c, r) ∈ H := by
+    have : (serial σ0 prog (acqOrder g (run (init σ0 prog) sch))).hist = (serInit σ0 prog).hist ++ H := hH
+    rw [this] at hmem; simpa [serInit] using hmem
+  obtain ⟨_, σ, hσ, hr⟩ := hall _ hmem'
+  exact ⟨c, σ, hc, hσ, hr⟩
+
+end Linearizability
+
+/-! ## The anchored classes (bodies from the regenerated table; specifications in `RomeaModel/LinObjects.lean`,
+`LinReport.lean`; the witnesses that the sequential hypotheses are satisfiable are in `Properties/C19Witness.lean`) -/
+
+section Classes
+open Romea.Lin Romea.Generated.C19
+
+/-- **SharedVariable is a linearizable cell**, for every width `W` of the value (copied word by word), every number of
+    threads storing and loading, every schedule, and EVERY data flow on the regenerated event lists of `store` / `load`
+    that is sequentially a cell (`hseq`: run alone, `store v` leaves the `W` words of `value_` equal to `v`, `load`
+    changes nothing and returns them — `svFlow`, i.e. `value_ = value;` / `return value_;`, is one, see the examples):
+    there is one sequential history in which every `load` returns the value of the latest `store` before it (or the
+    initial value), and every completed call returned what it returns in that history. -/
+theorem shared_variable_linearizable {V : Type} [Inhabited V] (W : Nat) (fl : Flow V (SVOp V) (List V))
+    (hseq : ∀ op σ, vecOf W 1 (runCall σ (cls_SharedVariable.call W fl SVOp.method op)).1 = ((svObj W).step (vecOf W 1 σ) op).1 ∧
+        (runCall σ (cls_SharedVariable.call W fl SVOp.method op)).2 = ((svObj W).step (vecOf W 1 σ) op).2)
+    (σ0 : Store V) (prog : Nat → List (SVOp V)) (sch : List Nat) :
+    LinearizableTo (svObj W) (vecOf W 1 σ0) prog
+      (run (init σ0 (fun t => (prog t).map (cls_SharedVariable.call W fl SVOp.method))) sch) :=
+  table_linearizable_to cls_SharedVariable (by simp [Romea.Generated.C19.table]) (by decide) W fl SVOp.method
+    (by intro op; cases op <;> (simp only [SVOp.method]; decide)) (svObj W) (vecOf W 1) hseq σ0 prog sch
+
+/-- **A shared variable is never observed half-written**: whatever the width, the thread count and the schedule,
+    every value a completed `load` returned is — all `W` words of it — the initial value or the argument of ONE
+    `store` call of some thread; never a mixture of two stores.  (`some []` is what a `store` returns.) -/
+theorem shared_variable_never_torn {V : Type} [Inhabited V] (W : Nat) (fl : Flow V (SVOp V) (List V))
+    (hseq : ∀ op σ, vecOf W 1 (runCall σ (cls_SharedVariable.call W fl SVOp.method op)).1 = ((svObj W).step (vecOf W 1 σ) op).1 ∧
+        (runCall σ (cls_SharedVariable.call W fl SVOp.method op)).2 = ((svObj W).step (vecOf W 1 σ) op).2)
+    (σ0 : Store V) (prog : Nat → List (SVOp V)) (sch : List Nat) :
+    ∀ t, ∀ r ∈ ((run (init σ0 (fun t => (prog t).map (cls_SharedVariable.call W fl SVOp.method))) sch).thr t).done,
+      r = some [] ∨ r = some (vecOf W 1 σ0) ∨ ∃ t' v, SVOp.store v ∈ prog t' ∧ r = some (pad W v) := by
+  intro t r hr
+  obtain ⟨H, hlegal, hprog, hret, _⟩ := shared_variable_linearizable W fl hseq σ0 prog sch
+  have hrH : r ∈ H.map (fun e => e.2.2) := by
+    have := (hret t).1.subset hr
+    simp only [List.mem_map, List.mem_filter] at this ⊢
+    obtain ⟨e, ⟨he, _⟩, her⟩ := this
+    exact ⟨e, he, her⟩
+  rw [← hlegal] at hrH
+  rcases sv_results W _ _ r hrH with h | h | ⟨v, hv, h⟩
+  · exact Or.inl h
+  · exact Or.inr (Or.inl h)
+  · refine Or.inr (Or.inr ?_)
+    simp only [List.mem_map] at hv
+    obtain ⟨e, he, hev⟩ := hv
+    obtain ⟨rest, hrest⟩ := hprog e.1
+    refine ⟨e.1, v, ?_, h⟩
+    rw [← hrest]
+    apply List.mem_append_left
+    simp only [List.mem_map, List.mem_filter]
+    exact ⟨e, ⟨he, by simp⟩, hev⟩
+
+/-- **SharedOptionalVariable is a linearizable one-place buffer** (payload of any width `n`, flag and payload copied
+    word by word, any number of producers and consumers, every schedule, EVERY data flow on the regenerated event
+    lists of `store` / `consume` that is sequentially a one-place buffer — `optFlow` is one, see the examples). -/
+theorem optional_linearizable (n : Nat) (fl : Flow Nat OptOp (Option (List Nat)))
+    (hseq : ∀ op σ, optAbs n (runCall σ (cls_SharedOptionalVariable.call (n + 1) fl OptOp.method op)).1 = ((optObj n).step (optAbs n σ) op).1 ∧
+        (runCall σ (cls_SharedOptionalVariable.call (n + 1) fl OptOp.method op)).2 = ((optObj n).step (optAbs n σ) op).2)
+    (σ0 : Store Nat) (prog : Nat → List OptOp) (sch : List Nat) :
+    LinearizableTo (optObj n) (optAbs n σ0) prog
+      (run (init σ0 (fun t => (prog t).map (cls_SharedOptionalVariable.call (n + 1) fl OptOp.method))) sch) :=
+  table_linearizable_to cls_SharedOptionalVariable (by simp [Romea.Generated.C19.table]) (by decide) (n + 1) fl OptOp.method
+    (by intro op; cases op <;> (simp only [OptOp.method]; decide)) (optObj n) (optAbs n) hseq σ0 prog sch
+
+/-- **Exactly once, in store order** (on every legal history of the buffer, hence by `optional_linearizable` on every
+    schedule): the values handed to consumers are, in order and occurrence by occurrence, a subsequence of the values
+    stored — every consumed value was stored, no stored value is handed out twice, consumption order = store order
+    restricted to the consumed values. -/
+theorem optional_history_exactly_once (n : Nat) (ops : List OptOp) :
+    (((optObj n).runList none ops).2.filterMap consumed).Sublist (ops.filterMap (OptOp.stored n)) := by
+  simpa using opt_consumed_sublist n none ops
+
+/-- **A store over an unconsumed value drops the old one**: in a legal history, a `store v` immediately followed by
+    another `store w` contributes nothing — the values handed out are those of the history without `store v`. -/
+theorem optional_overwrite_drops (n : Nat) (pend : Option (List Nat)) (a b : List OptOp) (v w : List Nat) :
+    ((optObj n).runList pend (a ++ OptOp.store v :: OptOp.store w :: b)).2.filterMap consumed =
+    ((optObj n).runList pend (a ++ OptOp.store w :: b)).2.filterMap consumed := by
+  have hc : consumed (some none) = none := rfl
+  rw [runList_append, runList_append]
+  simp [SeqObj.runList, optObj, hc]
+
+/-- the two previous theorems on every schedule: one sequential history explains all completed calls, and in it the
+    consumed values are a subsequence of the stored ones -/
+theorem optional_consumed_once_in_store_order (n : Nat) (fl : Flow Nat OptOp (Option (List Nat)))
+    (hseq : ∀ op σ, optAbs n (runCall σ (cls_SharedOptionalVariable.call (n + 1) fl OptOp.method op)).1 = ((optObj n).step (optAbs n σ) op).1 ∧
+        (runCall σ (cls_SharedOptionalVariable.call (n + 1) fl OptOp.method op)).2 = ((optObj n).step (optAbs n σ) op).2)
+    (σ0 : Store Nat) (h0 : σ0 (1, 0) = 0) (prog : Nat → List OptOp) (sch : List Nat) :
+    ∃ H : List (Nat × OptOp × Option (Option (List Nat))),
+      (∀ t, ((run (init σ0 (fun t => (prog t).map (cls_SharedOptionalVariable.call (n + 1) fl OptOp.method))) sch).thr t).done <+:
+          (H.filter fun e => e.1 == t).map (fun e => e.2.2)) ∧
+      (∀ t, ∃ rest, (H.filter fun e => e.1 == t).map (fun e => e.2.1) ++ rest = prog t) ∧
+      ((H.map fun e => e.2.2).filterMap consumed).Sublist ((H.map fun e => e.2.1).filterMap (OptOp.stored n)) := by
+  obtain ⟨H, hlegal, hprog, hret, _⟩ := optional_linearizable n fl hseq σ0 prog sch
+  refine ⟨H, fun t => (hret t).1, hprog, ?_⟩
+  rw [← hlegal]
+  have : optAbs n σ0 = none := by simp [optAbs, h0]
+  rw [this]
+  exact optional_history_exactly_once n _
+
+/-- **Every report copy belongs to ONE evaluation.**  For a class `c` all of whose methods are one critical section
+    (`linShaped`: true of every check-up class of the regenerated table by `table_lin_shaped`) and whose `getReport` is
+    `acq g, rd f, rel g` (checked on the regenerated table for the six check-up classes below), reports `W` words wide (status, message,
+    value, …: written one after the other inside `evaluate`, copied one after the other by `getReport`), and EVERY
+    data flow `fl` of `evaluate` / `timeout` that meets the SEQUENTIAL contract "run alone (from a store satisfying a
+    stable side condition `K`, e.g. the thresholds have their configured values), the call leaves the report words
+    equal to `tr e`, the words of its own evaluation `e`" (what C18 proves of the sequential code): in every
+    schedule with any number of evaluating / timing-out / reading threads, the copy returned by the `k`-th call of a
+    thread, if that call is a `getReport`, is — all words — the initial report or `tr e` for ONE writer call `e` of
+    some thread. -/
+theorem report_copy_consistent {V X : Type} [Inhabited V] (c : Class) (hls : c.linShaped = true) (f W : Nat) (fl : Flow V (RepOp X) (List V)) (tr : Option X → List V)
+    (hget : c.evsOf "getReport" = [.acq c.guard, .rd f, .rel c.guard])
+    (hret : ∀ l, fl.ret l RepOp.getReport = locVec W 1 l)
+    (K : Store V → Prop) (hK : ∀ op σ, K σ → K (runCall σ (repCall c W fl op)).1)
+    (hwr : ∀ op e, RepOp.written op = some e → ∀ σ, K σ → vecOf W f (runCall σ (repCall c W fl op)).1 = pad W (tr e))
+    (σ0 : Store V) (hK0 : K σ0) (prog : Nat → List (RepOp X))
+    (hmeth : ∀ t, ∀ op ∈ prog t, (c.methods.any fun m => m.name == op.method) = true) (sch : List Nat) :
+    ∀ (t k : Nat) (r : Option (List V)), ((run (init σ0 (fun t => (prog t).map (repCall c W fl))) sch).thr t).done[k]? = some r →
+      (prog t)[k]? = some RepOp.getReport →
+      r = some (vecOf W f σ0) ∨ ∃ t' op e, op ∈ prog t' ∧ RepOp.written op = some e ∧ r = some (pad W (tr e)) := by
+  intro t k r hk hop
+  have hshape : ∀ t, ∀ cl ∈ (fun t => (prog t).map (repCall c W fl)) t, Shape c.guard cl.body := by
+    intro t cl hcl
+    simp only [List.mem_map] at hcl
+    obtain ⟨op, hop, rfl⟩ := hcl
+    obtain ⟨m, hm, hevs⟩ := evsOf_mem c op.method (hmeth t op hop)
+    simp only [repCall, hevs]
+    exact shape_ofEvents c.guard W fl m.evs (guard_spec c hls m hm)
+  have := (observed_in_consistent_state c.guard σ0 _ hshape
+    (fun σ => K σ ∧ (vecOf W f σ = vecOf W f σ0 ∨
+      ∃ t' op e, op ∈ prog t' ∧ RepOp.written op = some e ∧ vecOf W f σ = pad W (tr e)))
+    ⟨hK0, Or.inl rfl⟩ (by
+      intro t cl hcl σ hσ
+      simp only [List.mem_map] at hcl
+      obtain ⟨op, hop, rfl⟩ := hcl
+      refine ⟨hK op σ hσ.1, ?_⟩
+      cases hw : RepOp.written op with
+      | some e => exact Or.inr ⟨t, op, e, hop, hw, hwr op e hw σ hσ.1⟩
+      | none =>
+        cases op with
+        | evaluate x => simp [RepOp.written] at hw
+        | timeout => simp [RepOp.written] at hw
+        | getReport => rw [(rep_get c c.guard f W fl hget hret σ).1]; exact hσ.2) sch).2 t k r hk
+  obtain ⟨cl, σ, hcl, ⟨_, hσ⟩, hr⟩ := this
+  have : cl = repCall c W fl RepOp.getReport := by
+    simp only [List.getElem?_map, hop, Option.map_some, Option.some.injEq] at hcl
+    exact hcl.symm
+  rw [this, (rep_get c c.guard f W fl hget hret σ).2] at hr
+  rcases hσ with h | ⟨t', op, e, h1, h2, h3⟩
+  · exact Or.inl (by rw [hr, h])
+  · exact Or.inr ⟨t', op, e, h1, h2, by rw [hr, h3]⟩
+
+/-- the six check-up classes of the regenerated table have the `getReport` the previous theorem asks for (guard 0;
+    the report is field 1 of `Checkup`, 3 of the comparison check-ups, 2 of `CheckupRate` (its inner check-up) and of
+    `CheckupReliability`) -/
+theorem checkup_getReport_shape :
+    (cls_Checkup.guard = 0 ∧ cls_Checkup.evsOf "getReport" = [.acq 0, .rd 1, .rel 0]) ∧
+    (cls_CheckupEqualTo.guard = 0 ∧ cls_CheckupEqualTo.evsOf "getReport" = [.acq 0, .rd 3, .rel 0]) ∧
+    (cls_CheckupGreaterThan.guard = 0 ∧ cls_CheckupGreaterThan.evsOf "getReport" = [.acq 0, .rd 3, .rel 0]) ∧
+    (cls_CheckupLowerThan.guard = 0 ∧ cls_CheckupLowerThan.evsOf "getReport" = [.acq 0, .rd 3, .rel 0]) ∧
+    (cls_CheckupRate.guard = 0 ∧ cls_CheckupRate.evsOf "getReport" = [.acq 0, .rd 2, .rel 0]) ∧
+    (cls_CheckupReliability.guard = 0 ∧ cls_CheckupReliability.evsOf "getReport" = [.acq 0, .rd 2, .rel 0]) := by
+  decide
+
+/-- **OnlineAverage / OnlineVariance: the values of `getAverage`, `getVariance`, `isAvailable` are those of a serial
+    order** of the `update` / `reset` / getter calls — for every width, EVERY data flow (nothing about the arithmetic
+    is assumed), any number of threads, every schedule. -/
+theorem online_statistics_linearizable {V A R : Type} [Inhabited V] (c : Class)
+    (hc : c = cls_OnlineAverage ∨ c = cls_OnlineVariance)
+    (W : Nat) (σ0 : Store V) (prog : Nat → List (Call V A R))
+    (hprog : ∀ t, ∀ cl ∈ prog t, ∃ m ∈ c.methods, ∃ fl : Flow V A R, cl.body = ofEvents W fl m.evs)
+    (sch : List Nat) : Linearized 0 σ0 prog (run (init σ0 prog) sch) := by
+  rcases hc with rfl | rfl
+  · exact table_linearizable cls_OnlineAverage (by simp [Romea.Generated.C19.table]) (by decide) W σ0 prog hprog sch
+  · exact table_linearizable cls_OnlineVariance (by simp [Romea.Generated.C19.table]) (by decide) W σ0 prog hprog sch
+
+end Classes
+
 /-! ## Non-vacuity -/
 
 example : runLocks (fun _ => none) [(1, .acq 0), (1, .wr 1), (1, .rel 0), (2, .acq 0), (2, .rd 1), (2, .rel 0)] ≠ none := by
@@ -474,5 +797,85 @@ example : runLocks (fun _ => none) [(1, .acq 0), (1, .wr 1), (1, .rel 0), (2, .a
 example : runOpt none [.store 1, .store 2, .consume, .consume, .store 3, .consume] = [2, 3] := by decide
 example : scan 0 [1] [] [.acq 0, .rd 1, .wr 1, .rel 0] = some [] := by decide
 example : scan 0 [1] [] [.acq 0, .rd 1, .rel 0, .escape 1] = none := by decide
+
+
+/-! ### non-vacuity of the linearizability theorems: the semantics run on concrete schedules -/
+
+section Examples
+open Romea.Lin Romea.Generated.C19
+
+/-- **the hypothesis is needed (1): no lock.**  Same data flow without `acq`/`rel`: the loader copies between the two
+    word writes and returns `[7, 0]` — neither the initial value nor the stored one — and the conclusion of
+    `linearizable` fails. -/
+private def tornProg : Nat → List (Call Nat (SVOp Nat) (List Nat)) := fun t =>
+  if t = 1 then [⟨[.wr (1, 0) (fun _ _ => 7), .wr (1, 1) (fun _ _ => 8)], .store [7, 8]⟩]
+  else if t = 2 then [⟨[.rd (1, 0) (1, 0), .rd (1, 1) (1, 1), .ret (svFlow 2).ret], .load⟩] else []
+
+example : ((run (init (fun _ => 0) tornProg) [1, 1, 2, 2, 2, 2, 2, 1]).thr 2).done = [some [7, 0]] := by decide
+example : ¬ Linearized 0 (fun _ => 0) tornProg (run (init (fun _ => 0) tornProg) [1, 1, 2, 2, 2, 2, 2, 1]) := by
+  intro h
+  have := (h.returns 2).1.length_le
+  revert this
+  decide
+
+/-- **the hypothesis is needed (2): two critical sections in one call.**  `evaluate` takes the mutex twice, writing
+    the status word in the first critical section and the message word in the second.  Every access is guarded — the
+    lock-discipline check `scan` ACCEPTS it — but it is not one critical section (`evShape` rejects it) and a
+    `getReport` scheduled between the two returns the status of this evaluation with the message of the previous
+    one. -/
+private def splitEvs : List Ev := [.acq 0, .wr 3, .rel 0, .acq 0, .wr 3, .rel 0]
+private def splitFlow : Flow Nat (RepOp Nat) (List Nat) where
+  wr := fun i j l a => match a with
+    | .evaluate x => if i = 1 ∧ j = 0 then x else if i = 4 ∧ j = 1 then x else l (i, j)
+    | _ => l (i, j)
+  ret := fun l a => match a with
+    | .getReport => locVec 2 1 l
+    | _ => []
+private def splitProg : Nat → List (Call Nat (RepOp Nat) (List Nat)) := fun t =>
+  if t = 1 then [⟨ofEvents 2 splitFlow splitEvs, .evaluate 5⟩]
+  else if t = 2 then [⟨ofEvents 2 splitFlow [.acq 0, .rd 3, .rel 0], .getReport⟩] else []
+
+example : scan 0 [3] [] splitEvs = some [] := by decide
+example : evShape 0 splitEvs = false := by decide
+example : ((run (init (fun _ => 0) splitProg) [1, 1, 1, 1, 1, 1, 1, 2, 2, 2, 2, 2, 2, 2]).thr 2).done = [some [5, 0]] := by
+  decide
+
+/-- the report theorem is not vacuous: the concrete `CheckupGreaterThan` data flow (message, status and value written
+    by separate events, as in `setDiagnostic_` / `setValue_`) meets the sequential contract on the events of
+    `CheckupGreaterThan` (`gtFrozen`, a copy of the table entry) -/
+example (thr eps : Nat) (σ0 : Store Nat) (h0 : gtK thr eps σ0) (prog : Nat → List (RepOp Nat)) (sch : List Nat) :=
+  report_copy_consistent gtFrozen (by decide) 3 3 gtFlow
+    (gtTriple thr eps) gt_get_evs (fun _ => rfl) (gtK thr eps)
+    (by intro op σ hK
+        cases op with
+        | evaluate x => exact (gt_eval thr eps x σ hK).1
+        | timeout => exact (gt_timeout thr eps σ hK).1
+        | getReport => exact gt_get thr eps σ hK)
+    (by intro op e hw σ hK
+        cases op with
+        | evaluate x => simp only [RepOp.written, Option.some.injEq] at hw; subst hw; exact (gt_eval thr eps x σ hK).2
+        | timeout => simp only [RepOp.written, Option.some.injEq] at hw; subst hw; exact (gt_timeout thr eps σ hK).2
+        | getReport => simp [RepOp.written] at hw)
+    σ0 h0 prog (by intro t op _; cases op <;> (simp only [RepOp.method]; decide)) sch
+
+set_option maxRecDepth 16000 in
+/-- one evaluating thread, one reader, on the `CheckupGreaterThan` bodies (`gtFrozen`): the reader is scheduled while
+    the evaluation has written message and status but not yet the value — it is blocked, and its copy is whole -/
+example : ((run (init (storeWith 1 [10]) (fun t => if t = 1 then [repCall gtFrozen 3 gtFlow (.evaluate 20)]
+      else if t = 2 then [repCall gtFrozen 3 gtFlow .getReport] else []))
+    ([1, 1, 2, 2] ++ List.replicate 30 1 ++ [2, 2, 2] ++ List.replicate 45 1 ++ List.replicate 10 2)).thr 2).done
+      = [some [0, 10, 120]] := by
+  decide
+
+/-- programs of table bodies exist (hypothesis `hprog` of `table_linearizable` / `online_statistics_linearizable`) -/
+example : ∀ cl ∈ [(⟨ofEvents 2 ⟨fun _ _ l _ => l (0, 0), fun _ _ => 0⟩ (cls_OnlineAverage.evsOf "update"), 3⟩ : Call Nat Nat Nat)],
+    ∃ m ∈ cls_OnlineAverage.methods, ∃ fl : Flow Nat Nat Nat, cl.body = ofEvents 2 fl m.evs := by
+  intro cl hcl
+  simp only [List.mem_singleton] at hcl
+  subst hcl
+  obtain ⟨m, hm, he⟩ := evsOf_mem cls_OnlineAverage "update" (by decide)
+  exact ⟨m, hm, _, by rw [he]⟩
+
+end Examples
 
 end Romea.C19
